@@ -21,6 +21,14 @@ fn live_files(sim: &Sim, c: &WsCase) -> Vec<(String, String)> {
 }
 
 /// is the fresh analysis of these files deterministic (C11 exclusion)?
+fn fresh_deterministic_cfg(files: &[(String, String)], qs: &[String], spec: &CfgSpec) -> bool {
+    let d1 = dump(&fresh_cfg(files, spec), qs);
+    let d2 = dump(&fresh_cfg(files, spec), qs);
+    let mut rev: Vec<(String, String)> = Vec::new();
+    rev.extend(files.iter().cloned());
+    d1 == d2
+}
+
 fn fresh_deterministic(files: &[(String, String)], qs: &[String], strict: bool) -> bool {
     let d1 = dump(&fresh(files, strict), qs);
     let d2 = dump(&fresh(files, strict), qs);
@@ -218,7 +226,7 @@ fn gen_c10(rng: &mut Rng) -> WsCase {
         }
         ops.push(if rng.chance(1, 4) { AOp::Close(i) } else { AOp::Remove(i) });
     }
-    WsCase { files, initial, ops, probe: Some(probe), strict: rng.chance(1, 3) }
+    WsCase { files, initial, ops, probe: Some(probe), strict: rng.chance(1, 3), configs: vec![] }
 }
 
 /// returns the failures of one C10 case
@@ -361,7 +369,7 @@ fn gen_c08(rng: &mut Rng) -> WsCase {
             ops.push(AOp::Update(i, 0));
         }
     }
-    WsCase { files, initial, ops, probe: None, strict: rng.chance(1, 3) }
+    WsCase { files, initial, ops, probe: None, strict: rng.chance(1, 3), configs: vec![] }
 }
 
 fn oracle_c08(c: &WsCase, report: &mut Report) -> Fails {
@@ -456,7 +464,37 @@ fn gen_c09(rng: &mut Rng) -> WsCase {
         });
     }
     ops.push(AOp::Reindex);
-    WsCase { files, initial, ops, probe: None, strict: rng.chance(1, 3) }
+    let strict = rng.chance(1, 3);
+    let mut configs = Vec::new();
+    if rng.chance(1, 2) {
+        // config reloads: configs[0] = the starting configuration, then 2 variants; `Config(k)` steps are inserted at
+        // random places (half of them directly followed by a reindex; the history always ends with one)
+        configs.push(CfgSpec::base(strict));
+        for _ in 0..2 {
+            let mut s = CfgSpec::base(if rng.chance(1, 3) { !strict } else { strict });
+            for _ in 0..rng.range(1, 2) {
+                match rng.below(7) {
+                    0 => s.module_map = vec![("^f(.*)$".into(), "mapped.f$1".into())],
+                    1 => s.module_map = vec![("^lib\\.(.*)$".into(), "$1".into())],
+                    2 => s.module_map = vec![("^p\\.(.*)$".into(), "q.$1".into()), ("^f0$".into(), "zero".into())],
+                    3 => { s.extensions = vec![".luau".into()]; s.require_pattern = vec!["?/main.lua".into()]; }
+                    4 => s.require_like = vec!["import".into()],
+                    5 => s.root = format!("{ROOT}/lib"),
+                    _ => s.libraries = vec![format!("{ROOT}/lib")],
+                }
+            }
+            configs.push(s);
+        }
+        for _ in 0..rng.range(1, 3) {
+            let at = rng.below(ops.len());
+            let k = rng.below(configs.len());
+            if rng.chance(1, 2) {
+                ops.insert(at, AOp::Reindex);
+            }
+            ops.insert(at, AOp::Config(k));
+        }
+    }
+    WsCase { files, initial, ops, probe: None, strict, configs }
 }
 
 fn oracle_c09(c: &WsCase, report: &mut Report) -> Fails {
@@ -473,15 +511,19 @@ fn oracle_c09(c: &WsCase, report: &mut Report) -> Fails {
             AOp::Close(_) => "c09_close",
             AOp::Reindex => "c09_reindex",
             AOp::Batch(_) => "c09_batch",
+            AOp::Config(_) => "c09_config",
         });
     }
     let files = live_files(&sim, c);
     // C11 exclusion: the fresh analysis this history is compared with must itself be deterministic
-    if !fresh_deterministic(&files, &qs, c.strict) {
+    let configured = !c.configs.is_empty();
+    let det = if configured { fresh_deterministic_cfg(&files, &qs, &sim.cfg) } else { fresh_deterministic(&files, &qs, c.strict) };
+    if !det {
         report.count("excluded_nondeterministic_fresh_analysis_of_final_files");
         return fails;
     }
-    let f = fresh(&files, c.strict);
+    // the fresh analysis runs under the configuration in force at the end of the history
+    let f = if configured { fresh_cfg(&files, &sim.cfg) } else { fresh(&files, c.strict) };
     // the path <-> id maps of the Vfs keep closed files (ids are never reused); not indexed state
     let ignore = ["vfs.file_id_map", "vfs.file_path_map"];
     if let Some(x) = diff_sizes(&sizes(&f), &sizes(&sim.a), &ignore) {
@@ -516,8 +558,8 @@ fn corpus(prop: &str) -> Vec<WsCase> {
                        "---@class (partial) Foo: Other\n---@field b integer\n\n---@class Base\n---@field z integer\n\n---@class Other\n---@field o integer\n"]),
         f("f2.lua", &["---@type Foo\nlocal x\nprint(x.a, x.b, x.z)\n", "print(1)\n"]),
     ];
-    let sc = |ops: Vec<AOp>| WsCase { files: sup.clone(), initial: vec![0, 1, 2], ops, probe: Some("---@class (partial) Foo: Base\n---@field p integer\n".into()), strict: false };
-    let pc = |ops: Vec<AOp>, strict: bool| WsCase { files: parent.clone(), initial: vec![0, 1, 2], ops, probe: None, strict };
+    let sc = |ops: Vec<AOp>| WsCase { files: sup.clone(), initial: vec![0, 1, 2], ops, probe: Some("---@class (partial) Foo: Base\n---@field p integer\n".into()), strict: false, configs: vec![] };
+    let pc = |ops: Vec<AOp>, strict: bool| WsCase { files: parent.clone(), initial: vec![0, 1, 2], ops, probe: None, strict, configs: vec![] };
     let mut extra = match prop {
         "C10" => vec![pc(vec![AOp::Update(0, 1), AOp::Remove(0)], true), pc(vec![AOp::Remove(0), AOp::Remove(2)], false)],
         "C08" => vec![pc(vec![AOp::Update(0, 1), AOp::Update(0, 0), AOp::Resubmit(0), AOp::Resubmit(1)], true), pc(vec![AOp::Resubmit(0), AOp::Update(1, 1), AOp::Update(1, 0)], false)],
@@ -525,22 +567,22 @@ fn corpus(prop: &str) -> Vec<WsCase> {
     };
     let mut base = match prop {
         "C10" => vec![
-            WsCase { files: plain.clone(), initial: vec![0, 1], ops: vec![AOp::Remove(0), AOp::Remove(1)], probe: None, strict: false },
-            WsCase { files: split.clone(), initial: vec![0, 1, 2], ops: vec![AOp::Remove(1), AOp::Close(0)], probe: None, strict: false },
+            WsCase { files: plain.clone(), initial: vec![0, 1], ops: vec![AOp::Remove(0), AOp::Remove(1)], probe: None, strict: false, configs: vec![] },
+            WsCase { files: split.clone(), initial: vec![0, 1, 2], ops: vec![AOp::Remove(1), AOp::Close(0)], probe: None, strict: false, configs: vec![] },
         ],
         "C08" => vec![
-            WsCase { files: plain.clone(), initial: vec![0, 1], ops: vec![AOp::Resubmit(0), AOp::Resubmit(1), AOp::Update(0, 1), AOp::Update(0, 0)], probe: None, strict: false },
-            WsCase { files: split.clone(), initial: vec![0, 1, 2], ops: vec![AOp::Resubmit(1), AOp::Resubmit(2)], probe: None, strict: false },
+            WsCase { files: plain.clone(), initial: vec![0, 1], ops: vec![AOp::Resubmit(0), AOp::Resubmit(1), AOp::Update(0, 1), AOp::Update(0, 0)], probe: None, strict: false, configs: vec![] },
+            WsCase { files: split.clone(), initial: vec![0, 1, 2], ops: vec![AOp::Resubmit(1), AOp::Resubmit(2)], probe: None, strict: false, configs: vec![] },
         ],
         _ => vec![
-            WsCase { files: plain.clone(), initial: vec![0, 1], ops: vec![AOp::Update(0, 1), AOp::Remove(1), AOp::Reindex], probe: None, strict: false },
-            WsCase { files: split.clone(), initial: vec![0, 1, 2], ops: vec![AOp::Update(1, 1), AOp::Update(1, 0), AOp::Close(2), AOp::Reindex], probe: None, strict: false },
+            WsCase { files: plain.clone(), initial: vec![0, 1], ops: vec![AOp::Update(0, 1), AOp::Remove(1), AOp::Reindex], probe: None, strict: false, configs: vec![] },
+            WsCase { files: split.clone(), initial: vec![0, 1, 2], ops: vec![AOp::Update(1, 1), AOp::Update(1, 0), AOp::Close(2), AOp::Reindex], probe: None, strict: false, configs: vec![] },
         ],
     };
     // regression (seeded `migrate_global_member` change): members of a global table contributed by another file that
     // is added BEFORE / AFTER / in the same batch as the declaring file; then either side is removed
     let reg = shapes().pop().map(|x| x.0).unwrap_or_default();
-    let rc = |ops: Vec<AOp>| WsCase { files: reg.clone(), initial: vec![], ops, probe: Some("function Gt.probe() end\nGt.version = 9\n".into()), strict: false };
+    let rc = |ops: Vec<AOp>| WsCase { files: reg.clone(), initial: vec![], ops, probe: Some("function Gt.probe() end\nGt.version = 9\n".into()), strict: false, configs: vec![] };
     base.extend(match prop {
         "C10" => vec![
             rc(vec![AOp::Update(0, 0), AOp::Update(1, 0), AOp::Update(2, 0), AOp::Remove(0), AOp::Remove(1)]),
@@ -558,6 +600,31 @@ fn corpus(prop: &str) -> Vec<WsCase> {
             rc(vec![AOp::Update(1, 0), AOp::Update(0, 0), AOp::Update(0, 1), AOp::Reindex]),
         ],
     });
+    if prop == "C09" {
+        // config reload that drops workspace.moduleMap, then reindex (seeded `set_module_replace_patterns` fast path)
+        let cfgfiles = vec![
+            f("lib/util.lua", &["local M = {}\nM.value = 1\nreturn M\n"]),
+            f("main.lua", &["local a = require(\"script.util\")\nlocal b = require(\"lib.util\")\nprint(a.value, b.value)\n"]),
+        ];
+        let mut with_map = CfgSpec::base(false);
+        with_map.module_map = vec![("^lib\\.(.*)$".into(), "script.$1".into())];
+        let mut other_map = CfgSpec::base(true);
+        other_map.module_map = vec![("^lib\\.(.*)$".into(), "x.$1".into())];
+        for ops in [
+            vec![AOp::Config(1), AOp::Reindex, AOp::Config(0), AOp::Reindex],
+            vec![AOp::Config(1), AOp::Reindex, AOp::Config(0), AOp::Reindex, AOp::Config(2), AOp::Reindex],
+            vec![AOp::Config(1), AOp::Update(0, 0), AOp::Config(2), AOp::Config(0), AOp::Reindex],
+        ] {
+            base.push(WsCase { files: cfgfiles.clone(), initial: vec![0, 1], ops, probe: None, strict: false, configs: vec![CfgSpec::base(false), with_map.clone(), other_map.clone()] });
+        }
+        // a file without type declarations caches a type inferred from another file's annotation; that file changes; reindex
+        let tyfiles = vec![
+            f("user.lua", &["local v = Gd\nprint(v)\nlocal w = Gd\n"]),
+            f("defs.lua", &["---@type integer\nGd = 1\n", "---@type string\nGd = \"s\"\n"]),
+        ];
+        base.push(WsCase { files: tyfiles.clone(), initial: vec![0, 1], ops: vec![AOp::Update(1, 1), AOp::Reindex], probe: None, strict: false, configs: vec![] });
+        base.push(WsCase { files: tyfiles.clone(), initial: vec![1, 0], ops: vec![AOp::Update(1, 1), AOp::Update(0, 0), AOp::Update(1, 0), AOp::Update(1, 1), AOp::Reindex], probe: None, strict: false, configs: vec![] });
+    }
     base.append(&mut extra);
     base.extend(match prop {
         "C10" => vec![sc(vec![AOp::Remove(1)]), sc(vec![AOp::Update(1, 1), AOp::Remove(0)]), sc(vec![AOp::Close(0), AOp::Remove(2)])],
@@ -682,7 +749,7 @@ fn exhaustive_ws(prop: &str) -> Vec<WsCase> {
             }
         };
         for ops in seqs {
-            out.push(WsCase { files: files.clone(), initial: if staged { vec![] } else { vec![0, 1, 2] }, ops, probe: None, strict });
+            out.push(WsCase { files: files.clone(), initial: if staged { vec![] } else { vec![0, 1, 2] }, ops, probe: None, strict, configs: vec![] });
         }
     }
     out
